@@ -242,7 +242,7 @@ def run(ck):
             ck.check(len(raised) == 1 and raised[0].value.exc_name == "ValueError", "C19.R2", "too large -> ValueError/" + form, ghs.site(),
                      "no ValueError path for an oversized space (%s): the whole space would be allocated" % form)
             for p in raised:
-                alloc = [c for c in p.interp.ext_calls if c[0] in ("numpy.arange", "torch.tensor", "torch.zeros") and "generate_hilbert_space" in c[3]]
+                alloc = [c for c in p.interp.ext_calls if c[0] in ("numpy.arange", "torch.tensor", "torch.zeros") and within(c, "generate_hilbert_space")]
                 ck.check(not alloc, "C19.R2", "refused before allocation/" + form, ghs.site(), "the space is (partly) allocated before the size is refused")
                 conds = [c for c in p.conds if len(c) > 3 and getattr(c[3], "term", None) is not None]
                 okc = False
@@ -298,7 +298,33 @@ def run(ck):
                 ck.check(isinstance(s_, VTens) and s_.term == T.sym("file(samples_path)") and s_.kind == "tensor", "C19.R3", "load_data:samples tensor", ld.site(), "first result is not the samples file as a tensor")
                 F = T.sym("file(psi_path)")
                 col = lambda k: T.app("index", F, (("slice", None, None, None), k))  # noqa: E731
-                ck.check(isinstance(tg, VTens) and tg.term == T.stack0(col(0), col(1)), "C19.R3", "load_data:target columns (re, im)", ld.site(),
+                def _int(x):
+                    if isinstance(x, int):
+                        return x
+                    c_ = x.const_value() if isinstance(x, T.Poly) else None
+                    return int(c_) if c_ is not None and c_.denominator == 1 else None
+
+                def comp(t_, k):
+                    """Row k of the (2, N) target, as a column of the file, when the way it was assembled is recognised."""
+                    if t_ is None:
+                        return None
+                    cs = T.as_stack0(t_)
+                    if cs is not None:
+                        return cs[k] if len(cs) == 2 else None
+                    a_ = t_.single_atom()
+                    if isinstance(a_, T.App) and a_.op == "t":
+                        x_ = a_.args[0].single_atom() if isinstance(a_.args[0], T.Poly) else None
+                        # the transpose of the first columns file[:, :n] (n >= 2): row k of it is column k of the file
+                        if isinstance(x_, T.App) and x_.op == "index" and len(x_.args[1]) == 2 and tuple(x_.args[1][0]) == ("slice", None, None, None):
+                            sl = x_.args[1][1]
+                            if isinstance(sl, tuple) and sl and sl[0] == "slice" and sl[1] is None and sl[3] is None and _int(sl[2]) is not None and _int(sl[2]) >= 2:
+                                return T.app("index", x_.args[0], (("slice", None, None, None), k))
+                    return None
+
+                tt_ = tg.term if isinstance(tg, VTens) else None
+                c0_, c1_ = comp(tt_, 0), comp(tt_, 1)
+                okt = (c0_ == col(0) and c1_ == col(1)) if (c0_ is not None and c1_ is not None) else (None if isinstance(tg, VTens) else False)
+                ck.check(okt, "C19.R3", "load_data:target columns (re, im)", ld.site(),
                          "target is not (column 0 -> real, column 1 -> imaginary): %r" % (getattr(tg, "term", None),))
                 ck.check(isinstance(b1, VTens) and b1.term == T.sym("file(tr_bases_path)") and isinstance(b2, VTens) and b2.term == T.sym("file(bases_path)"), "C19.R3", "load_data:bases order", ld.site(),
                          "third/fourth results are not (training bases, all bases)")
@@ -323,6 +349,10 @@ def run(ck):
             ok = items is not None and len(items) == 4 and isinstance(items[1], VTens) and items[1].term == T.stack0(T.sym("file(re_path)"), T.sym("file(im_path)"))
             ck.check(ok, "C19.R3", "load_data_DM:target (re, im)", ldm.site(), "target matrix is not make_complex(real file, imaginary file)")
             if items is not None and len(items) == 4:
+                # every result is the file named by ITS argument (samples, training bases, list of all bases)
+                for nm_, v_, arg_ in (("samples", items[0], "samples_path"), ("training bases", items[2], "tr_bases_path"), ("list of all bases", items[3], "bases_path")):
+                    ck.check(isinstance(v_, VTens) and v_.term == T.sym("file(%s)" % arg_), "C19.R3", "load_data_DM:%s are read from the file given for them" % nm_, ldm.site(),
+                             "the %s returned by load_data_DM are %r, not the content of the file passed as %s" % (nm_, getattr(v_, "term", None), arg_), key="C19.R3|load_data_DM|wrong file:%s" % nm_)
                 for nm_, v_ in (("samples", items[0]), ("training bases", items[2]), ("list of all bases", items[3])):
                     rk = len(v_.shape) if isinstance(v_, VTens) and v_.shape is not None else None
                     ck.check(rk == 2, "C19.R3", "load_data_DM:%s keep two axes for every file" % nm_, ldm.site(),
